@@ -414,6 +414,13 @@ def gen_case(rng, verb=None):
     return {"verb": verb, "head": head, "clauses": clauses, "tail": tail}
 
 
+def norm_err(line):
+    """Some error paths of the sub-parsers raise TypeError instead of ParseError because of their own message
+    formatting (defect D7, property C14; repaired by fixes/D07-…): which of the two classes is raised is not
+    C15's subject, so both count as the parse error here."""
+    return '"ERR parse"' if line == '"ERR type"' else line
+
+
 def perms(case):
     cl = case["clauses"]
     idx = list(itertools.permutations(range(len(cl))))
@@ -433,7 +440,7 @@ class CHECK(core.Check):
     PROPERTY = "C15"
     LEAN_MODULES = ["IofloModel.Props.C15"]
     ENGINE = "clauses"
-    N_QUICK = 500
+    N_QUICK = 600
     N_THOROUGH = 12000
     N_SEARCH = 600
     RULE = ("a case is one command of a verb (framer, frame, do, aux, rear, log, logger, server, or a go … if … is "
@@ -447,10 +454,25 @@ class CHECK(core.Check):
                "harness bookkeeping of what each verb does with the parsed options after its loop (defaults, abs/max/int, "
                "name -> inits, inode -> ioinits, native context, rx/tx host:port split)",
                "literal values: the C17 model; rounding by CPython float()"]
-    PARTIAL = []
+    PARTIAL = ["C15_framer_partial (needs ¬d51Region; C15_framer_counterexample: defect D51)",
+               "C15_do_asfound_partial (code as found, needs ¬d9Region; C15_do_asfound_counterexample: defect D9; "
+               "C15_do is full for the repaired terminator list)",
+               "C15_server_partial (needs the connectives present to be reserved words / not `in` when per / for "
+               "clauses are present; C15_server_d52, C15_server_d53: defects D52, D53)",
+               "C15_rear assumes `in frame <name>` with the name written (the documented syntax)",
+               "the marker-need loop (`in frame` / `by`) is modelled and compared on all permutations, no theorem",
+               "what each verb does with the parsed options after its loop is outside the model (harness bookkeeping)",
+               "the trailing `if` needs of aux are kept as raw tokens (need parsing is not modelled)"]
     TECHNIQUE = ("Lean 4 theorems (a generic permutation theorem for option loops from a per-clause locality lemma; "
                  "no-absorption lemmas for the sub-parsers) + differential correspondence on all permutations")
-    LEVEL_TEXT = "see Props/C15.lean"
+    LEVEL_TEXT = ("Proved on the model: a generic theorem (C15_order_independent / texts_order_independent) — clauses that "
+                  "are each local (what follows is never absorbed) and whose updates commute parse to the same configuration "
+                  "in every order — instantiated per verb from 'the clause parses on its own': full for frame, do (repaired "
+                  "list), aux (with trailing if), log, logger, rear (C15_frame, C15_buildFrame, C15_do, C15_aux, C15_log, "
+                  "C15_logger, C15_rear); partial with the finding's region as hypothesis plus a proved counterexample for "
+                  "framer (D51), do as found (D9), server (D52, D53). The no-absorption lemmas cover parseRelation/"
+                  "parseIndirect (all relation forms), parseFields, parseDirect, the name loop of do. The model is tied to "
+                  "building.py by running the real build methods on every permutation.")
     LEVEL_NOTE = ("Trusted: Lean kernel; propext, Classical.choice, Quot.sound; the hand transcription of the option loops and "
                   "sub-parsers validated only by the correspondence runs; what the verbs do after their loops is outside the model.")
 
@@ -495,18 +517,26 @@ class CHECK(core.Check):
                     e = "ERR parse" if st == "ERR index" else st
             else:
                 e = expect_verb(case["verb"], rep, tokens_of(case, p))
-            out.append(json.dumps(e, sort_keys=True))
+            out.append(norm_err(json.dumps(e, sort_keys=True)))
         return out
 
     def impl(self, case):
-        return [json.dumps(run_verb(case["verb"], tokens_of(case, p)), sort_keys=True) for p in perms(case)]
+        return [norm_err(json.dumps(run_verb(case["verb"], tokens_of(case, p)), sort_keys=True)) for p in perms(case)]
 
     def oracle(self, case, out):
         if not out:
             return None
-        first = out[0]
+        # which clauses fail on their own?  With at most one such clause the error is attributable to it and
+        # must be the same in every arrangement; with several, which one is reported first may depend on the
+        # order, and the property only asks that every arrangement is rejected.
+        failing = 0
+        for c in case["clauses"]:
+            r = run_verb(case["verb"], case["head"] + c + case["tail"])
+            failing += isinstance(r, str) and r.startswith("ERR")
+        norm = (lambda o: o) if failing <= 1 else (lambda o: '"ERR"' if o.startswith('"ERR') else o)
+        first = norm(out[0])
         for p, o in zip(perms(case), out):
-            if o != first:
+            if norm(o) != first:
                 return ("clause order matters for %s: %r gives %s but %r gives %s" % (
                     case["verb"], " ".join(tokens_of(case, perms(case)[0])), first[:160], " ".join(tokens_of(case, p)), o[:160]))
         return None
@@ -519,18 +549,13 @@ class CHECK(core.Check):
         return "%s:%d clauses:%s" % (case["verb"], len(case["clauses"]), "all-ok" if ok == len(out) else "all-err" if ok == 0 else "mixed")
 
     def region(self, finding, case):
-        keys = [c[0] for c in case["clauses"]]
+        """the Lean region predicates d9Region / d51Region / d52Region / d53Region, evaluated by the driver"""
         fid = finding.get("id")
-        if fid == "D9":
-            return (not self.fixed()) and case["verb"] == "do" and "as" in keys and any(k in keys for k in ("via", "from", "per"))
-        if fid == "D51":
-            if case["verb"] != "framer" or "first" not in keys:
-                return False
-            via = [c for c in case["clauses"] if c[0] == "via"]
-            return bool(via) and via[0][-1] in ("framer", "frame", "actor") and len(via[0]) >= 3 and via[0][-2] == "of"
-        if fid == "D52":
-            return case["verb"] == "server" and "per" in keys and ("rx" in keys or "tx" in keys)
-        return False
+        verb_of = {"D9": "do", "D51": "framer", "D52": "server", "D53": "server"}
+        if fid not in verb_of or case["verb"] != verb_of[fid] or (fid == "D9" and self.fixed()):
+            return False
+        cls = ";".join(tok_hex(c) for c in case["clauses"]) or "-"
+        return core.Driver(self.ENGINE).run(["region %s %s" % (fid, cls)])[0] == "1"
 
     def shrink_candidates(self, case):
         cl = case["clauses"]
